@@ -85,3 +85,84 @@ def is_neg_zero(r):
 def real_is(r, neg_zero, q):
     """r is the exact real q, or the signed zero -0 when `neg_zero` (then q == 0)"""
     return is_neg_zero(r) if cls_name(r) == 'Float' else (not neg_zero and r == q)
+
+
+# ---------------------------------------------------------------------------
+# literal nodes of the FPy AST: what they denote (with a signed zero)
+
+def is_lit(a):
+    n = cls_name(a)
+    return n == 'Integer' or n == 'Decnum' or n == 'Hexnum' or n == 'Rational' or n == 'Digits'
+
+
+def lit_ok(a):
+    """the literal node is well formed: its spelling is in the grammar / no division by zero"""
+    n = cls_name(a)
+    return (dec_ok(a.val) if n == 'Decnum' else
+            hex_ok(a.val) if n == 'Hexnum' else
+            a.q != 0 if n == 'Rational' else
+            (a.b != 0 or a.e >= 0) if n == 'Digits' else True)
+
+
+def lit_value(a):
+    """the rational number a literal node denotes"""
+    n = cls_name(a)
+    return (den10(a.val) if n == 'Decnum' else
+            den16(a.val) if n == 'Hexnum' else
+            rdiv(a.p, a.q) if n == 'Rational' else
+            digits_value(a.m, a.e, a.b) if n == 'Digits' else to_real(a.val))
+
+
+def lit_negzero(a):
+    """the literal node denotes the signed zero -0 (a zero spelled with a minus sign)"""
+    n = cls_name(a)
+    return ((den10(a.val) == 0 and dec_neg(a.val)) if n == 'Decnum' else
+            (den16(a.val) == 0 and hex_neg(a.val)) if n == 'Hexnum' else False)
+
+
+# ---------------------------------------------------------------------------
+# stand-ins for Python `ast` nodes handed to the parser.  They derive from the real
+# node classes (so `match`/isinstance in the parser accept them natively and in pyvc)
+# and declare the fields the code reads.  `PyOperand.parsed` is a GHOST field: the
+# FPy AST that Parser._parse_expr returns for this operand (trusted contract
+# Parser__parse_expr in contracts/c06_parser.py).
+
+import ast
+
+
+class PyOperand(ast.expr):
+    lineno: int
+    col_offset: int
+    end_lineno: int
+    end_col_offset: int
+    parsed: 'Integer | Decnum | Hexnum | Rational | Digits | Var'
+
+
+class PyUAdd(ast.UAdd):
+    pass
+
+
+class PyUSub(ast.USub):
+    pass
+
+
+class PyNot(ast.Not):
+    pass
+
+
+class PyUnaryOp(ast.UnaryOp):
+    lineno: int
+    col_offset: int
+    end_lineno: int
+    end_col_offset: int
+    op: 'PyUAdd | PyUSub | PyNot'
+    operand: PyOperand
+
+
+def stub_parse_expr(orig):
+    """native realisation of the trusted contract of Parser._parse_expr (replay only)"""
+    def _parse_expr(self, e):
+        if isinstance(e, PyOperand):
+            return e.parsed
+        return orig(self, e)
+    return _parse_expr
